@@ -1,8 +1,95 @@
-(* Properties/C15.v — placeholder until the proofs are assembled. *)
-From Coq Require Import ZArith QArith List.
+(* Properties/C15.v — information-content weights are conserved, counted once
+   and monotone.  Statements only; proofs in Proofs/IcProofs.v.  [hyp] is the
+   hypernym graph, [cls] the part-of-speech class with satellite adjectives
+   folded into adjectives (negative = not an IC part of speech), a corpus word
+   is its count and wordnet.synsets(word). *)
+From Coq Require Import ZArith QArith List Bool.
 Import ListNotations.
-Require Import WnV.Base.Sx WnV.Model.Taxonomy WnV.Model.Ic.
-Example C15_model_runs :
-  ancestors (hyp_of [(1, [2; 3]); (2, [4]); (3, [4])])%Z 10 1%Z = Some [2; 4; 3; 1]%Z.
+Require Import WnV.Base.Sx WnV.Model.Taxonomy WnV.Model.Ic WnV.Proofs.TaxSpec WnV.Proofs.IcProofs.
+
+(* (1) the loop credits exactly the word synset and its hypernym ancestors, each once *)
+Theorem C15_ancestors_exact : forall hyp fuel x l,
+    ancestors hyp fuel x = Some l ->
+    NoDup l /\ (forall t, In t l <-> reach hyp x t).
+Proof. exact ancestors_spec. Qed.
+Print Assumptions C15_ancestors_exact.
+
+(* (2) and terminates on every finite graph (cycles, self-loops) *)
+Theorem C15_terminates : forall hyp V x,
+    closed hyp V -> NoDup V -> In x V ->
+    ancestors hyp (S (S (length (concat (map hyp V))))) x <> None.
+Proof. exact ancestors_terminates. Qed.
+Print Assumptions C15_terminates.
+
+(* (3) every synset weight = smoothing + for each corpus word and each of its synsets s of
+   an IC part of speech the word's weight iff the synset is s or a hypernym ancestor of s
+   — once per word synset however many paths converge; unknown words add nothing *)
+Theorem C15_counted_once : forall hyp cls fuel distribute corpus ev smoothing t,
+    compute_events hyp cls fuel distribute corpus = Ok ev ->
+    entry smoothing ev (Syn t) ==
+    smoothing + sumQ (flat_map (fun w => map (fun s => if Z.leb 0 (cls s)
+                                                       then credit hyp fuel t s (weight distribute w)
+                                                       else 0)
+                                             (cw_synsets w)) corpus).
+Proof. exact compute_synset_entry. Qed.
+Print Assumptions C15_counted_once.
+
+Theorem C15_credit_is_reachability : forall hyp fuel t s wt anc,
+    ancestors hyp fuel s = Some anc ->
+    (reach hyp s t /\ credit hyp fuel t s wt = wt) \/ (~ reach hyp s t /\ credit hyp fuel t s wt = 0).
+Proof. exact credit_spec. Qed.
+Print Assumptions C15_credit_is_reachability.
+
+(* (4) conservation: the total of a part of speech = smoothing + the weights of all corpus
+   word synsets of that part of speech *)
+Theorem C15_totals : forall hyp cls fuel distribute corpus ev smoothing k,
+    compute_events hyp cls fuel distribute corpus = Ok ev -> (0 <= k)%Z ->
+    entry smoothing ev (Total k) ==
+    smoothing + sumQ (flat_map (fun w => map (fun s => if Z.eqb (cls s) k
+                                                       then weight distribute w else 0)
+                                             (cw_synsets w)) corpus).
+Proof. exact compute_total_entry. Qed.
+Print Assumptions C15_totals.
+
+(* (5) weights never decrease going up the taxonomy *)
+Theorem C15_monotone : forall hyp cls fuel distribute corpus ev smoothing t u,
+    compute_events hyp cls fuel distribute corpus = Ok ev ->
+    (forall w, In w corpus -> (0 <= cw_count w)%Z) ->
+    In u (hyp t) ->
+    entry smoothing ev (Syn t) <= entry smoothing ev (Syn u).
+Proof. exact compute_monotone. Qed.
+Print Assumptions C15_monotone.
+
+(* (6) synset probability lies in (0,1] *)
+Theorem C15_probability : forall hyp cls fuel distribute corpus ev smoothing t,
+    compute_events hyp cls fuel distribute corpus = Ok ev ->
+    (forall w, In w corpus -> (0 <= cw_count w)%Z) ->
+    0 < smoothing -> (0 <= cls t)%Z ->
+    0 < probability cls smoothing ev t /\ probability cls smoothing ev t <= 1.
+Proof. exact probability_unit. Qed.
+Print Assumptions C15_probability.
+
+(* (7) information content (for any antitone -log with -log 1 = 0): non-negative and never
+   larger for a hypernym than for its hyponym *)
+Theorem C15_information_content :
+  forall hyp cls (nlog : Q -> Q),
+    (forall p q, 0 < p -> p <= q -> nlog q <= nlog p) -> nlog 1 == 0 ->
+    (forall p q, p == q -> nlog p == nlog q) ->
+    forall fuel distribute corpus ev smoothing t u,
+      compute_events hyp cls fuel distribute corpus = Ok ev ->
+      (forall w, In w corpus -> (0 <= cw_count w)%Z) ->
+      0 < smoothing -> (0 <= cls t)%Z -> In u (hyp t) -> cls u = cls t ->
+      0 <= nlog (probability cls smoothing ev t)
+      /\ nlog (probability cls smoothing ev u) <= nlog (probability cls smoothing ev t).
+Proof. exact information_content_props. Qed.
+Print Assumptions C15_information_content.
+
+(* non-vacuity: the diamond a -> b, c -> d with corpus [a]: every synset ends at 1 + 1 *)
+Example C15_diamond :
+  let hyp := hyp_of [(1, [2; 3]); (2, [4]); (3, [4])]%Z in
+  match compute_events hyp (fun _ => 0%Z) 10 true [ {| cw_count := 1; cw_synsets := [1%Z] |} ] with
+  | Ok ev => Qeq_bool (entry 1 ev (Syn 4%Z)) 2 && Qeq_bool (entry 1 ev (Total 0%Z)) 2
+  | _ => false
+  end = true.
 Proof. vm_compute. reflexivity. Qed.
-Print Assumptions C15_model_runs.
+Print Assumptions C15_diamond.
